@@ -372,6 +372,30 @@ def run(ctx):
                             "scheduling site reachable after stop(): %s" % why, where(f, c),
                             "activity (re)started after stop() returned", facts=["guarded=%s" % guarded])
 
+    # start() itself: the reply to the first request may be there at once, and the processor - run from inside start() -
+    # may stop the consumer.  Whatever start() arms after issuing that request is armed on a stopped consumer, unless it
+    # looks at `_start_d` again first
+    cst_ = ctx.cfg(start)
+    fst_ = ctx.facts(start)
+    issuing = []
+    for n in cst_.nodes:
+        for c in n.calls():
+            g = prog.resolve_call(start, c)
+            if g is not None and g.cls is ci and any(any(call_name(c2).startswith("send_") and call_recv(c2) == "self.client" for c2 in calls_in(h))
+                                                     for h in list(reachable_funcs(prog, g).values()) + [g]):
+                issuing.append(n.id)
+    armed_late = []
+    for n in cst_.nodes:
+        for c in n.calls():
+            nm, rc = call_name(c), call_recv(c) or ""
+            if (nm == "start" and "looper" in rc.lower()) or nm in ("callLater", "LoopingCall"):
+                if issuing and n.id in cst_.reach(issuing) and not any("_start_d" in t for t, pol in fst_[n.id]):
+                    armed_late.append(n)
+    r.check(bool(issuing) and not armed_late, "%s#armed-before-first-request" % start.qname,
+            "start() arms %s after issuing the first request, without looking at `_start_d` again" % [n.text(50) for n in armed_late],
+            where(start, armed_late[0].stmt if armed_late else start.node), "the first reply is available at once and the processor stops the "
+            "consumer from inside start(): the automatic-commit timer is then started on the stopped consumer and keeps running")
+
     # activity started from the processor-success chain also has to look at "still started": the processor itself may
     # have called stop() (nothing to cancel yet, and stop() resets the stopping flag before the chain goes on)
     ac = ctx.func(CONS + "._auto_commit")
@@ -605,7 +629,6 @@ def run(ctx):
     # ---- R8 teardown order: cancelling a Deferred handle runs its chain synchronously; whatever that chain can start
     # must be cancelled afterwards
     r = ctx.rule("R8", "stop() cancels a Deferred handle before the handles its chain can (re)arm", 2, "C")
-    from .util import reachable_funcs
     cstop = ctx.cfg(stop)
 
     def _live_in_stop(func, astnode):
@@ -722,7 +745,6 @@ def run(ctx):
 
     # ---- R6 restartable
     r = ctx.rule("R6", "stop() resets _stopping, and every handle that gates a function start() calls is clear after stop()", 4, "A")
-    from .util import reachable_funcs
     for g in reachable_funcs(prog, start).values():
         if g.cls is not ci or g is start:
             continue
@@ -790,6 +812,11 @@ def run(ctx):
 
 
 MUTANTS = [
+    {"id": "looper-armed-after-first-fetch", "file": "consumer.py",
+     "edits": [("consumer.py", "        # Start a new fetch request, possibly just for the starting offset\n        self._fetch_offset = start_offset\n        self._do_fetch()\n        return start_d\n", "        return start_d\n"),
+               ("consumer.py", "        # Set up the auto-commit timer, if needed (before the first fetch: its\n", "        self._fetch_offset = start_offset\n        self._do_fetch()\n        # Set up the auto-commit timer, if needed (before the first fetch: its\n")],
+     "expect": "C13.R3", "note": "finding F36"},
+
     {"id": "fetch-error-only-cancelled-is-stop-induced", "file": "consumer.py",
      "old": "        if self._stopping:\n            # Not really an error: stop() cancelled the request. (The client\n            # reports a request cancelled in flight as FailedPayloadsError.)\n            return\n        # Do we need to abort?\n        if self.request_retry_max_attempts != 0 and self._fetch_attempt_count >= self.request_retry_max_attempts:\n            log.debug(\n                \"%r: Exhausted attempts: %d fetching messages",
      "new": "        if self._stopping and failure.check(CancelledError):\n            return\n        # Do we need to abort?\n        if self.request_retry_max_attempts != 0 and self._fetch_attempt_count >= self.request_retry_max_attempts:\n            log.debug(\n                \"%r: Exhausted attempts: %d fetching messages",
